@@ -440,7 +440,15 @@ func perturb(r *hv.Rng, t *Ty, f *AFile) (kind string, jsonComparable bool) {
 				return "add-empty-block", true
 			}
 			f.Blocks = append(f.Blocks, ABlock{"zz_blk", nil, &AFile{}})
-			return "extra-block", true
+			// with a `remain` field the JSON property "zz_blk": {} is an attribute of the
+			// remaining body, the native block is not: JSON cannot express the difference
+			hasRemain := false
+			for _, fld := range t.F {
+				if fld.Kind == "remain" {
+					hasRemain = true
+				}
+			}
+			return "extra-block", !hasRemain
 		case 8: // wrong number of labels
 			if len(f.Blocks) > 0 {
 				i := r.Intn(len(f.Blocks))
